@@ -244,8 +244,15 @@ def hardware(rng, decl, einsums, mapping, buffers_p=0.5, merger_p=0.3):
             dirs = (mapping.get("partitioning") or {}).get(o, {})
             static = set(r for r in e["levels"] if all("occupancy" not in d for d in dirs.get(r, ["occupancy"])))
             # only statically (shape) partitioned ranks: the whole tensor exists in its partitioned form before the loops
+            def whole(t, r):
+                # ... or the LEADER of a one-level occupancy split of its outermost stored rank, when that rank's upper level
+                # opens the loop nest: the leader is then split once, before the loops
+                ds = dirs.get(r, [])
+                stored = mapping["rank-order"].get(t, decl[t])
+                return (r in static) or (len(ds) == 1 and ds[0].startswith("uniform_occupancy(%s." % t) and stored and stored[0] == r
+                                         and e["loop"] and e["loop"][0] == e["levels"][r][0])
             ins = [(t, rs) for term in e["terms"] for t, rs in term
-                   if len(rs) >= 2 and any(r in static for r in rs) and all(r in static or r not in e["levels"] for r in rs)]
+                   if len(rs) >= 2 and any(r in e["levels"] for r in rs) and all(r not in e["levels"] or whole(t, r) for r in rs)]
             if ins:
                 t, rs = rng.choice(ins)
                 init = []
